@@ -776,6 +776,14 @@ def eval_sim(desc, ctx, d):
             S2 = dict(S, grid_file=expansion[0])
             Path("v2x.yaml").write_text(emit_yaml(tree_v2(S2, False), rng), encoding="utf-8")
             spell.append(("v2 with the defaulted grid written out", "v2x.yaml"))
+        if not S["continuous"] and S["frequency"] is not None:
+            # a discrete release whose file still carries a release frequency (dormant: v1 spells it `release_type:
+            # discrete` + `release_frequency`, the v1 reader drops it); the v2 file that keeps the line says the same
+            t2 = tree_v2(S, False)
+            t2["release"]["continuous"] = False
+            t2["release"]["release_frequency"] = S["frequency"]
+            Path("v2f.yaml").write_text(emit_yaml(t2, rng), encoding="utf-8")
+            spell.append(("v2 with the dormant release_frequency kept (continuous: false)", "v2f.yaml"))
         for name, fname in spell:
             Path("out.nc").unlink(missing_ok=True)
             msg = run_main(fname)
@@ -1029,6 +1037,9 @@ def gen_cases(ctx):
     for i in range(nsim):
         run = i < nrun
         S = gen_sim(rng, run)
+        if run and i % 6 == 1:  # every sixth run: a discrete release that still carries a (dormant) release frequency
+            S["continuous"] = False
+            S["frequency"] = [[1, "h"], 1800, "PT30M"][(i // 6) % 3]
         broken = (not run) and rng.random() < 0.12
         if broken:
             S = break_hypothesis(rng, S)
